@@ -13,7 +13,7 @@ PROP = "C04"
 RULE = (
     "GFF3 and GTF files of 1-10 records that have, lack or multiply define ID / Name / Alias / gene_id / transcript_id, "
     "imported under id_spec in {None, 'ID', 'Name', ['ID','Name'], ['Name','ID'], ('Alias','ID'), dict of str or list, "
-    "':seqid:' ':source:' ':strand:' ':featuretype:', callables returning None / an attribute-derived string / "
+    "a defaultdict with a default entry, ':seqid:' ':source:' ':strand:' ':featuretype:', callables returning None / an attribute-derived string / "
     "'autoincrement:'+seqid}; merge_strategy error when the reference ids are unique, create_unique otherwise; a labelled share of "
     "cases delivers the tail through one or two update() calls (same handle, or after deleting one uniquely-keyed feature and "
     "reopening the file). "
@@ -26,7 +26,7 @@ ASSUMPTIONS = [
 ]
 
 SPECS = ["default", "ID", "Name", "ID,Name", "Name,ID", "Alias,ID", "dict", "dict2", ":seqid:", ":source:", ":strand:", ":featuretype:",
-         "call_none", "call_name", "call_auto", "call_mixed", "call_auto_colon"]
+         "call_none", "call_name", "call_auto", "call_mixed", "call_auto_colon", "ddict"]
 
 
 def spec_object(name, gtf):
@@ -44,6 +44,11 @@ def spec_object(name, gtf):
         return {"gene": "Name", "mRNA": ["ID", "Name"]}
     if name == "dict2":
         return {"gene": "gene_id", "exon": ["Alias", "Name"], "transcript": "transcript_id"}
+    if name == "ddict":
+        # a dict subclass that supplies the entry of unlisted featuretypes itself
+        import collections
+
+        return collections.defaultdict(lambda: "Name", gene="ID")
     if name == "call_none":
         return lambda f: None
     if name == "call_name":
@@ -87,6 +92,8 @@ def ref_ids(records, spec, gtf):
             keys = {"gene": ["Name"], "mRNA": ["ID", "Name"]}.get(ft)
         elif s == "dict2":
             keys = {"gene": ["gene_id"], "exon": ["Alias", "Name"], "transcript": ["transcript_id"]}.get(ft)
+        elif s == "ddict":
+            keys = ["ID"] if ft == "gene" else ["Name"]
         elif s == "call_none":
             keys = None
         elif s == "call_name":
@@ -181,6 +188,7 @@ class IdsLeg(object):
                     "replace_tail": draw(st.booleans()),
                     "file_db": draw(st.booleans()),
                     "delete_reopen": draw(st.booleans()), "victim": draw(st.integers(0, 9)),
+                    "dup_strategy": draw(st.sampled_from(["create_unique", "create_unique", "merge"])),
                     "probe": draw(st.sampled_from(["x", "", "%", "_", "UP", "low", "pre", "sp"]))}
 
         def ok(c):
@@ -221,7 +229,14 @@ class IdsLeg(object):
         path = ctx.write("i.txt", "\n".join(lines) + "\n")
         keys, multi = ref_ids(recs, case["spec"], gtf)
         dup = len(set(keys)) < len(keys)
-        kw = dict(id_spec=spec_object(case["spec"], gtf), merge_strategy="create_unique" if dup else "error", keep_order=False)
+        dup_strategy = "create_unique"
+        if dup and case.get("dup_strategy") == "merge":
+            # 'merge' files a newcomer whose columns differ from every stored feature under its key exactly like
+            # create_unique (and records the renaming); used only when all lines sharing a key differ in their columns
+            seen = set()
+            if all(not ((kk, tuple(r["cols"])) in seen or seen.add((kk, tuple(r["cols"])))) for kk, r in zip(keys, recs)):
+                dup_strategy = "merge"
+        kw = dict(id_spec=spec_object(case["spec"], gtf), merge_strategy=dup_strategy if dup else "error", keep_order=False)
         if gtf:
             kw.update(disable_infer_genes=True, disable_infer_transcripts=True)
         if multi:
@@ -314,6 +329,26 @@ class IdsLeg(object):
                 ctx.count("absent key raised")
             else:
                 return Failure("db[%r] (absent key) returned %r" % (probe, str(f)), sig={"kind": "absent-found"})
+        # a key whose later arrivals were filed as <key>_1 ... is deleted: it is absent from then on, <key>_1 is not
+        if dup and not replace_tail:
+            k0 = next((kk for kk in want if kk + "_1" in want), None)
+            if k0 is not None:
+                line1 = lines[want.index(k0 + "_1")]
+                db.delete(k0, make_backup=False)
+                handles = [db]
+                if case.get("file_db") and 0 < (case.get("split") or 0) < len(recs):
+                    handles.append(gffutils.FeatureDB(db.dbfn, keep_order=False))
+                for h in handles:
+                    try:
+                        f = h[k0]
+                    except FeatureNotFoundError:
+                        pass
+                    else:
+                        return Failure("db[%r] after delete(%r) returned %r" % (k0, k0, str(f)), sig={"kind": "absent-found", "after": "delete"})
+                    if str(h[k0 + "_1"]) != line1:
+                        return Failure("db[%r] after delete(%r) returned %r, stored %r" % (k0 + "_1", k0, str(h[k0 + "_1"]), line1),
+                                       sig={"kind": "lookup"})
+                ctx.count("deleted key with renamed duplicates probed")
         return None
 
 
